@@ -23,7 +23,7 @@ for sid in sorted(os.listdir('/verif/seeded')):
     for l in r.stdout.splitlines():
         m = re.match(r'VIOLATION property=(C\d+) ', l)
         if m: cur = m.group(1)
-        m2 = re.match(r'\s+rule (\S+) at (\S+): (.*)', l)
+        m2 = re.match(r'\s+rule (\S+) at (\S*): (.*)', l)
         if m2 and cur: fired.setdefault(cur, []).append(m2.group(3))
     errs = [l for l in r.stdout.splitlines() if l.startswith('ERROR') or l.startswith('UNDECIDED') or 'NOT-ANALYSABLE' in l]
     meta = json.load(open(f'{d}/meta.json'))
